@@ -271,6 +271,7 @@ class Executor:
                 self.drop_impls[last_seg(ii.self_ty)] = f
         self.max_paths = 200000
         self.type_hooks = []
+        self.cut_block = None     # (function-name regex, block id, count): stop when that block is entered for the count-th time
         self.cut_revisit = None   # (function-name regex, k): stop a path when a block of that function is entered for the (k+1)-th time, keeping its frames
 
     # ------------------------------------------------------------ values
@@ -751,10 +752,19 @@ class Executor:
         if depth > 200:
             raise Unsupported('call depth > 200')
 
-    def run(self, st, func, args, bind=None):
-        """run `func(args)` from state st on all paths -> [(state, retval | Panic)]"""
+    def run(self, st, func, args, bind=None, start_bb=None, locals_by_name=None):
+        """run `func(args)` from state st on all paths -> [(state, retval | Panic)].
+        start_bb / locals_by_name start the execution in the middle of the function (at a loop head) with the named
+        locals (debug names) pre-set: used for inductive steps over loops."""
         base = len(st.frames)
         self.push_frame(st, func, args, bind=bind)
+        if start_bb is not None:
+            fr = st.frames[-1]
+            fr.bb = start_bb
+            for nm_, val in (locals_by_name or {}).items():
+                if nm_ not in (func.debug or {}):
+                    raise Unsupported(f"local {nm_} not found in {func.name}")
+                fr.locals[func.debug[nm_]].value = val
         work = [st]
         results = []
         while work:
@@ -976,6 +986,8 @@ class Executor:
             if re.search(pat, frame.func.name):
                 bound = b
         if self.cut_revisit is not None and re.search(self.cut_revisit[0], frame.func.name) and n > self.cut_revisit[1]:
+            return Panic(f'LOOP-CUT in {frame.func.name} at bb{bb}', 'cut')
+        if self.cut_block is not None and bb == self.cut_block[1] and re.search(self.cut_block[0], frame.func.name) and n >= self.cut_block[2]:
             return Panic(f'LOOP-CUT in {frame.func.name} at bb{bb}', 'cut')
         if n > bound:
             return Panic('UNWIND-BOUND in ' + frame.func.name + f' (bb{bb} visited more than {bound} times)', 'bound')
